@@ -550,7 +550,7 @@ func gen(r *h.Rand, tier string, emit func([]string)) {
 
 	n := 260
 	if tier == "thorough" {
-		n = 5000
+		n = 3000
 	}
 	periods := []uint64{1, 2, 5, 10, 15, 30, 60}
 	cperiods := []uint64{1, 2, 3, 4, 5, 6, 7, 10, 12, 15, 20} // not 30: influxdata/cron makes "*/30" match second 59 too
